@@ -30,16 +30,24 @@ theorem be16_size16 (n : Nat) (hn : n < 65536) : be16 n.toUInt16 = size16 n := b
 
 /-! ### unit-level description of one step -/
 
-/-- units released by one step and the pending pair afterwards -/
-def stepOut (disable : Bool) (sps pps : Option Bytes) (n : Bytes) :
-    List Bytes × (Option Bytes × Option Bytes) :=
+/-- a packet's worth of units: (is it a STAP-A?, the units) -/
+abbrev Group := Bool × List Bytes
+
+/-- the units in a list of groups, in order -/
+def flatOf (gs : List Group) : List Bytes := gs.flatMap (·.2)
+
+/-- units released by one step, grouped as they are packed, and the pending pair afterwards -/
+def stepOut (disable : Bool) (mtu : Nat) (sps pps : Option Bytes) (n : Bytes) :
+    List Group × (Option Bytes × Option Bytes) :=
   if isDropped n then ([], (sps, pps))
-  else if disable then ([n], (sps, pps))
+  else if disable then ([(false, [n])], (sps, pps))
   else if isSps n then ([], (some n, pps))
   else if isPps n then ([], (sps, some n))
   else match sps, pps with
-    | some s, some p => ([s, p, n], (none, none))
-    | _, _ => ([n], (sps, pps))
+    | some s, some p =>
+      ((if 5 + s.length + p.length ≤ mtu then [(true, [s, p])] else [(false, [s]), (false, [p])]) ++
+        [(false, [n])], (none, none))
+    | _, _ => ([(false, [n])], (sps, pps))
 
 /-- pending parameter sets are well-formed units that are not AUD/filler -/
 def pendOk (o : Option Bytes) : Prop := ∀ s, o = some s → nalWF s = true ∧ isDropped s = false
@@ -57,42 +65,48 @@ theorem payloadNoStap_unit (mtu : Nat) (s : Bytes) (hw : nalWF s = true) (hd : i
   simp only [isDropped, typeOf] at hd
   simp [payloadNoStap, hb, stepNoStap, dropped_test, hd]
 
-/-- the outcome of a step is a list of RFC 6184 items -/
-structure StepPlan (out : List Bytes) (nals : List Bytes) : Prop where
+/-- the outcome of a step is a list of RFC 6184 items, packed as `groups` says -/
+structure StepPlan (out : List Bytes) (groups : List Group) : Prop where
   ex : ∃ plan : List Item, out = encode plan ∧ plan.all Item.wf = true ∧
-        plan.all Rtp.Pred.C10.headsApply = true ∧ plan.flatMap Item.nals = nals
+        plan.all Rtp.Pred.C10.headsApply = true ∧ plan.map Item.group = groups
 
 theorem StepPlan.nil : StepPlan [] [] := ⟨⟨[], rfl, rfl, rfl, rfl⟩⟩
 
-theorem StepPlan.append {o1 o2 : List Bytes} {n1 n2 : List Bytes} (a : StepPlan o1 n1)
+theorem StepPlan.append {o1 o2 : List Bytes} {n1 n2 : List Group} (a : StepPlan o1 n1)
     (b : StepPlan o2 n2) : StepPlan (o1 ++ o2) (n1 ++ n2) := by
   obtain ⟨p1, e1, w1, h1, k1⟩ := a.ex
   obtain ⟨p2, e2, w2, h2, k2⟩ := b.ex
   exact ⟨⟨p1 ++ p2, by simp [encode, e1, e2], by simp [w1, w2], by simp [h1, h2], by simp [k1, k2]⟩⟩
 
+theorem itemOf_not_stap (mtu : Nat) (n : Bytes) : (itemOf mtu n).isStap = false := by
+  unfold itemOf
+  split
+  · rfl
+  · split <;> rfl
+
 theorem StepPlan.unit (mtu : Nat) (hm : 3 ≤ mtu) (n : Bytes) (hw : nalWF n = true) :
-    StepPlan (singleOrFua mtu n) [n] := by
+    StepPlan (singleOrFua mtu n) [(false, [n])] := by
   have hu := unitOk_of_wf n hw
   obtain ⟨w, ha, hn⟩ := itemOf_wf mtu hm n hu
   exact ⟨⟨[itemOf mtu n], by simp [encode, singleOrFua_eq mtu hm n hu], by simp [w], by simp [ha],
-    by simp [hn]⟩⟩
+    by simp [Item.group, hn, itemOf_not_stap]⟩⟩
 
 theorem hType_78 : hType outputStapAHeader = 24 := by decide
 
 theorem StepPlan.stap (mtu : Nat) (hm2 : mtu < 65536) (s p : Bytes)
-    (hfit : (stapA s p).length ≤ mtu) : StepPlan [stapA s p] [s, p] := by
+    (hfit : (stapA s p).length ≤ mtu) : StepPlan [stapA s p] [(true, [s, p])] := by
   have hl : (stapA s p).length = 5 + s.length + p.length := by
     simp [stapA, be16]; omega
-  refine ⟨⟨[.stapA outputStapAHeader [s, p]], ?_, ?_, by simp [Rtp.Pred.C10.headsApply], by simp [Item.nals]⟩⟩
+  refine ⟨⟨[.stapA outputStapAHeader [s, p]], ?_, ?_, by simp [Rtp.Pred.C10.headsApply], by simp [Item.group, Item.isStap, Item.nals]⟩⟩
   · simp [encode, Item.encode, encStapBody, stapA, be16_size16 s.length (by omega),
       be16_size16 p.length (by omega)]
   · simp [Item.wf, hType_78]; omega
 
 theorem step_spec (disable : Bool) (mtu : Nat) (hm : 3 ≤ mtu) (hm2 : mtu < 65536) (st : PayState)
     (n : Bytes) (hw : nalWF n = true) (hst : StOk st) :
-    StepPlan (step disable mtu st n).1 (stepOut disable st.sps st.pps n).1 ∧
+    StepPlan (step disable mtu st n).1 (stepOut disable mtu st.sps st.pps n).1 ∧
     ((step disable mtu st n).2.sps, (step disable mtu st n).2.pps) =
-      (stepOut disable st.sps st.pps n).2 ∧
+      (stepOut disable mtu st.sps st.pps n).2 ∧
     StOk (step disable mtu st n).2 := by
   obtain ⟨h, body, rfl, _⟩ := unitOk_of_wf n hw
   have hunit := StepPlan.unit mtu hm (h :: body) hw
@@ -132,12 +146,13 @@ theorem step_spec (disable : Bool) (mtu : Nat) (hm : 3 ≤ mtu) (hm2 : mtu < 655
               have hp := hst.pps p rfl
               refine ⟨?_, (by simp), StOk.empty⟩
               simp only [Bool.false_eq_true, if_false]
-              have : ([s, p, h :: body] : List Bytes) = [s, p] ++ [h :: body] := rfl
-              rw [this]
               apply StepPlan.append _ hunit
+              have hl : (stapA s p).length = 5 + s.length + p.length := by
+                simp [stapA, be16]; omega
+              rw [hl]
               split
               · rename_i hfit
-                exact StepPlan.stap mtu hm2 s p hfit
+                exact StepPlan.stap mtu hm2 s p (by omega)
               · rw [payloadNoStap_unit mtu s hs.1 hs.2, payloadNoStap_unit mtu p hp.1 hp.2]
                 exact StepPlan.append (StepPlan.unit mtu hm s hs.1) (StepPlan.unit mtu hm p hp.1)
 
